@@ -41,8 +41,27 @@ def main() -> None:
         s = re.sub(re.escape(BEGIN) + r".*?" + re.escape(END), lambda _: block, s, flags=re.S)
     else:
         s = s.rstrip("\n") + "\n\n" + block + "\n"
+    # behaviour-preserving refactorings (seeded_keep/): every check must stay silent on them
+    KB, KE = "<!-- keep-table:begin -->", "<!-- keep-table:end -->"
+    krows = []
+    kd = V / "seeded_keep"
+    for d in sorted(kd.iterdir()) if kd.is_dir() else []:
+        mf = d / "meta.json"
+        if not mf.exists():
+            continue
+        m = json.loads(mf.read_text())
+        al = m.get("alarms", {})
+        krows.append(f"| {d.name} | {m.get('property', d.name[:3])} | {short(m.get('summary', ''), 260)} | {m.get('what_i_ran', {}).get('demo_output_lines', '?')} | "
+                     f"{'yes' if m.get('confirmed') else '**no**'} | {'none' if not al else '; '.join(f'**{k}** `{short(v[0], 60)}`' for k, v in sorted(al.items()))} |")
+    ktable = ["| refactoring | anchored in | what was restructured (agent's summary, shortened) | demo lines compared | output identical, suite green | alarms of the committed checks |",
+              "|---|---|---|---|---|---|"] + krows
+    kblock = KB + "\n" + "\n".join(ktable) + "\n" + KE
+    if KB in s:
+        s = re.sub(re.escape(KB) + r".*?" + re.escape(KE), lambda _: kblock, s, flags=re.S)
+    else:
+        s = s.rstrip("\n") + "\n\n**Behaviour-preserving refactorings (batches k, l): every check must stay silent.**\n\n" + kblock + "\n"
     p.write_text(s)
-    print(f"{len(rows)} seeds tabulated")
+    print(f"{len(rows)} seeds tabulated, {len(krows)} refactorings tabulated")
 
 
 if __name__ == "__main__":
